@@ -10,6 +10,11 @@
  *   xdump  t<k>                       dump incl. opaque nodes (resolved module / namespace, name, value, attributes) and anydata
  *   xcmp   t<a> t<b>                  lyd_compare_siblings(FULL_RECURSION|DEFAULTS) ':' number of node pairs whose metadata differ
  *   xrt    t<src> t<dst> fmt print_opts parse_opts val_opts     print + parse back (as lyx rt) and answer  rc  or  P<rc>
+ *   xrt1   t<k>#i t<dst> fmt print_opts parse_opts val_opts     as xrt for ONE node (lyd_print_mem of that node, siblings only with
+ *                                                               LYD_PRINT_WITHSIBLINGS in print_opts)
+ *   xcmp1  t<k>#i t<dst>              lyd_compare_single(FULL_RECURSION|DEFAULTS) of the node and the FIRST node of t<dst> ':'
+ *                                     metadata differences ':' number of top-level nodes in t<dst>
+ *   xdump1 t<k>#i                     xdump of that node (and its subtree) only
  *   xrtop  t<src> t<dst> fmt <r|n|y> print_opts                 print the operation tree, lyd_parse_op() it back (reply: into a
  *                                                               duplicate of the request's operation node)
  * Answers follow lyx.c (results separated by " | ", then end:...).
@@ -59,13 +64,15 @@ attr_modid(const struct lyd_node_opaq *q, const struct lyd_attr *a, char *buf, s
     return a->name.module_name ? a->name.module_name : "-";
 }
 
+static void xdump_node(struct sbuf *o, const struct lyd_node *n, int depth);
+
 static void
-xdump_node(struct sbuf *o, const struct lyd_node *n, int depth)
+xdump_one(struct sbuf *o, const struct lyd_node *n, int depth)
 {
     const struct lyd_node *c;
     char buf[256];
 
-    for ( ; n; n = n->next) {
+    {
         sb_fmt(o, "%d:", depth);
         if (n->schema) {
             sb_fmt(o, "%s:%s:", n->schema->module->name, n->schema->name);
@@ -118,6 +125,50 @@ xdump_node(struct sbuf *o, const struct lyd_node *n, int depth)
             xdump_node(o, c, depth + 1);
         }
     }
+}
+
+static void
+xdump_node(struct sbuf *o, const struct lyd_node *n, int depth)
+{
+    for ( ; n; n = n->next) {
+        xdump_one(o, n, depth);
+    }
+}
+
+static long meta_diffs(const struct lyd_node *a, const struct lyd_node *b);
+
+static long
+meta_diffs1(const struct lyd_node *a, const struct lyd_node *b)
+{
+    long d = 0;
+
+    if (!a || !b) {
+        return (a || b) ? 1 : 0;
+    }
+    if (a->schema && b->schema) {
+        const struct lyd_meta *m1 = a->meta, *m2 = b->meta;
+
+        for ( ; ; ) {
+            while (m1 && lyd_meta_is_internal(m1)) {
+                m1 = m1->next;
+            }
+            while (m2 && lyd_meta_is_internal(m2)) {
+                m2 = m2->next;
+            }
+            if (!m1 || !m2) {
+                break;
+            }
+            if (lyd_compare_meta(m1, m2)) {
+                ++d;
+            }
+            m1 = m1->next;
+            m2 = m2->next;
+        }
+        if (m1 || m2) {
+            ++d;
+        }
+    }
+    return d + meta_diffs(lyd_child(a), lyd_child(b));
 }
 
 static long
@@ -300,10 +351,34 @@ xcmd(char *cmd, struct sbuf *o)
         const struct lyd_node *a = T[slot_t(w[1])], *b = T[slot_t(w[2])];
 
         sb_fmt(o, "%d:%ld", (int)lyd_compare_siblings(a, b, LYD_COMPARE_FULL_RECURSION | LYD_COMPARE_DEFAULTS), meta_diffs(a, b));
-    } else if (!strcmp(w[0], "xrt")) {
+    } else if (!strcmp(w[0], "xdump1")) {
+        XNEED(2);
+        const struct lyd_node *n1 = node_at(w[1]);
+
+        if (n1) {
+            int depth = 0;
+
+            for (const struct lyd_node *par = lyd_parent(n1); par; par = lyd_parent(par)) {
+                ++depth;
+            }
+            xdump_one(o, n1, depth);
+        } else {
+            sb_str(o, "empty");
+        }
+    } else if (!strcmp(w[0], "xcmp1")) {
+        XNEED(3);
+        const struct lyd_node *a = node_at(w[1]), *b = T[slot_t(w[2])], *it;
+        int cnt = 0;
+
+        for (it = b; it; it = it->next) {
+            ++cnt;
+        }
+        sb_fmt(o, "%d:%ld:%d", (a && b) ? (int)lyd_compare_single(a, b, LYD_COMPARE_FULL_RECURSION | LYD_COMPARE_DEFAULTS) : -1,
+                meta_diffs1(a, b), cnt);
+    } else if (!strcmp(w[0], "xrt") || !strcmp(w[0], "xrt1")) {
         XNEED(7);
         int t = slot_t(w[2]);
-        struct lyd_node *n = T[slot_t(w[1])], *tree = NULL;
+        struct lyd_node *n = !strcmp(w[0], "xrt1") ? node_at(w[1]) : T[slot_t(w[1])], *tree = NULL;
         const struct ly_ctx *ctx = n ? LYD_CTX(n) : C[0];
         char *s = NULL;
         LYD_FORMAT f = fmt_of(w[3]);
